@@ -124,11 +124,13 @@ func (b *BuildRequestURL) Build(withParams ...M) *url.URL {
 		}
 	}
 
+	// replace all vars in one pass, a replaced value is never scanned again.
+	var oldNews = make([]string, 0, len(varParams)*2)
 	for paramRegex, name := range varParams {
-		path = strings.NewReplacer(paramRegex, goutil.String(b.params[name])).Replace(path)
+		oldNews = append(oldNews, paramRegex, goutil.String(b.params[name]))
 	}
 
-	u.Path = path
+	u.Path = strings.NewReplacer(oldNews...).Replace(path)
 
 	return u
 }
